@@ -86,8 +86,11 @@ Definition is_sdir (q : sq) : bool := match q with SDir _ _ => true | _ => false
 Definition is_sbol (q : sq) : bool := match q with SBol _ => true | _ => false end.
 
 Definition dfold (d : dsub) (cs : list ascii) : dsub := fold_left (fun d c => dstep d (cls_of c)) cs d.
-Lemma sfold_dir cs : forall k d m, sfold (SDir k d, m) cs = (SDir k (dfold d cs), m).
-Proof. induction cs as [|c cs IH]; intros k d m; [reflexivity|]. rewrite sfold_cons. cbn [sstep]. apply IH. Qed.
+Lemma sfold_dir cs : forall k d m, exists m', sfold (SDir k d, m) cs = (SDir k (dfold d cs), m').
+Proof.
+  induction cs as [|c cs IH]; intros k d m; [exists m; reflexivity|]. rewrite sfold_cons. cbn [sstep].
+  destruct (IH k (dstep d (cls_of c)) (dmark d (cls_of c) m)) as [m' E]. exists m'. exact E.
+Qed.
 
 Lemma sstep_inside q m k : is_sbol q = false -> is_sdir q = false ->
   is_sbol (fst (sstep (q, m) k)) = false /\ is_sdir (fst (sstep (q, m) k)) = false.
@@ -106,7 +109,7 @@ Definition is_hashk (k : cls) : bool := match k with kHash => true | _ => false 
 Lemma sline_fnb k cs :
   match fnb cs with
   | None => sfold (SBol k, mU) cs = (SBol k, mU)
-  | Some kh => if is_hashk kh then exists d, sfold (SBol k, mU) cs = (SDir k d, mM)
+  | Some kh => if is_hashk kh then exists d m, sfold (SBol k, mU) cs = (SDir k d, m)
                else is_sdir (fst (sfold (SBol k, mU) cs)) = false
   end.
 Proof.
@@ -115,7 +118,7 @@ Proof.
   - assert (E : sstep (SBol k, mU) (cls_of c) = (SBol k, mU)) by (destruct (cls_of c); try discriminate; reflexivity).
     rewrite E. exact IH.
   - destruct (is_hashk (cls_of c)) eqn:H.
-    + destruct (cls_of c); try discriminate. cbn [sstep]. eexists. apply sfold_dir.
+    + destruct (cls_of c); try discriminate. cbn [sstep]. destruct (sfold_dir cs k DTxt mM) as [m' E]. eexists. eexists. exact E.
     + destruct (sstep (SBol k, mU) (cls_of c)) as [q' m'] eqn:E.
       apply sfold_inside;
         destruct (cls_of c); try discriminate; destruct k; cbn in E; inversion E; reflexivity.
@@ -128,18 +131,21 @@ Proof.
   rewrite sfold_cons in HD. cbn [tguards]. rewrite (IH _ G2 HD), andb_true_r.
   unfold tguard. rewrite G1. cbn [andb]. destruct s as [q m]. cbn [fst].
   destruct q as [k0| | | | | |]; try reflexivity. destruct (cls_of c) eqn:K; try reflexivity.
-  cbn [sstep] in HD. rewrite sfold_dir in HD. discriminate.
+  cbn [sstep] in HD. destruct (sfold_dir cs k0 DTxt mM) as [m' E]. rewrite E in HD. discriminate.
 Qed.
 
 (* ---------- the C pass on one line ---------- *)
 Definition nobs (cs : list ascii) : bool := forallb (fun c => negb (is_bs c)) cs.
 
-Lemma cguards_nobs cs : forall s, cguards s cs = true -> nobs cs = true.
+(* backslashes are admitted on # lines only *)
+Lemma cguards_nobs cs : forall s, cguards s cs = true -> is_sdir (fst (sfold s cs)) = false -> nobs cs = true.
 Proof.
-  induction cs as [|c cs IH]; intros s HG; [reflexivity|].
-  cbn [cguards] in HG. apply andb_true_iff in HG. destruct HG as [G1 G2].
-  cbn [nobs forallb]. fold (nobs cs). rewrite (IH _ G2), andb_true_r.
-  unfold is_bs. destruct (cls_of c); try reflexivity. destruct s as [q m]; discriminate.
+  induction cs as [|c cs IH]; intros s HG HD; [reflexivity|].
+  cbn [cguards] in HG. apply andb_true_iff in HG. destruct HG as [G1 G2]. rewrite sfold_cons in HD.
+  cbn [nobs forallb]. fold (nobs cs). rewrite (IH _ G2 HD), andb_true_r.
+  unfold is_bs. destruct (cls_of c) eqn:K; try reflexivity. destruct s as [q m].
+  destruct q as [k0|x|x|k0|k0|k0|k0 d]; try discriminate.
+  cbn [sstep] in HD. destruct (sfold_dir cs k0 (dstep d kBs) (dmark d kBs m)) as [m' E]. rewrite E in HD. discriminate.
 Qed.
 
 Lemma is_blank_abs b : is_blank b = cat_eqb (a_cat (babs b)) BLANK.
@@ -173,6 +179,8 @@ Proof.
 Qed.
 
 (* inside a directive line: the cleaner's stack against the scanner's sub-state *)
+(* ---------- inside a directive line ---------- *)
+(* the cleaner's stack against the scanner's sub-state *)
 Definition dstack (d : dsub) : list cmode :=
   match d with
   | DTxt => [CCpp; CTop]
@@ -182,37 +190,95 @@ Definition dstack (d : dsub) : list cmode :=
   | DBlkSt => [CBstar; CBlock; CCpp; CTop]
   | DDq => [CDq; CCpp; CTop]
   | DSq => [CSq; CCpp; CTop]
+  | DEscT => [CEsc; CCpp; CTop]
+  | DEscD => [CEsc; CDq; CCpp; CTop]
+  | DEscS => [CEsc; CSq; CCpp; CTop]
   end.
 
-Lemma cat_dir_char c b : category b = CPPDIR -> category (app_char c b) = CPPDIR.
-Proof. rewrite !babs_cat, babs_char. unfold a_char. destruct (babs b); try discriminate; destruct (is_ws (cls_of c)); reflexivity. Qed.
-Lemma cat_dir_non c b : category b = CPPDIR -> category (app_non c b) = CPPDIR.
-Proof. rewrite !babs_cat, babs_non. destruct (babs b); try discriminate; reflexivity. Qed.
-Lemma cat_dir_space b : category b = CPPDIR -> category (app_space b) = CPPDIR.
-Proof. rewrite !babs_cat, babs_space. destruct (babs b); try discriminate; reflexivity. Qed.
+(* what one character does to the class of the physical line's buffer *)
+Definition a_dtxt (k : cls) (b : bcls) : bcls :=
+  match k with
+  | kSl => b
+  | kBs | kDq | kSq => a_non k b
+  | _ => a_char k b
+  end.
+Definition a_dstep (d : dsub) (k : cls) (b : bcls) : bcls :=
+  match d with
+  | DTxt => a_dtxt k b
+  | DSl => match k with kSl | kSt => b | _ => a_dtxt k (a_non kSl b) end
+  | DLc | DBlk => b
+  | DBlkSt => match k with kSl => a_space b | _ => b end
+  | DDq => a_non k b
+  | DSq => match k with kSl => b | _ => a_non k b end
+  | DEscT | DEscD | DEscS => a_non k b
+  end.
 
-Ltac solve_cat HC := repeat (first [exact HC | apply cat_dir_char | apply cat_dir_non | apply cat_dir_space]).
+Lemma slash_cls : cls_of "/"%char = kSl. Proof. reflexivity. Qed.
 
 (* one character of a directive line, for either value of the directives_only flag *)
-Lemma cstep_dir fl d c b k m : category b = CPPDIR -> cguard (SDir k d, m) (cls_of c) = true ->
-  exists b', cstep fl (dstack d, b) c = Ok (dstack (dstep d (cls_of c)), b') /\ category b' = CPPDIR.
+Lemma cstep_dir fl d c b k m : cguard (SDir k d, m) (cls_of c) = true ->
+  exists b', cstep fl (dstack d, b) c = Ok (dstack (dstep d (cls_of c)), b') /\
+             babs b' = a_dstep d (cls_of c) (babs b).
 Proof.
-  intros HC HG. destruct d; unfold cstep, cstep1, dstack; destruct (cls_of c) eqn:K; try discriminate;
-    cbn [dstep dtxt]; eexists; (split; [reflexivity|solve_cat HC]).
+  intros HG. destruct d; unfold cstep, cstep1, dstack; destruct (cls_of c) eqn:K; try discriminate;
+    cbn [dstep dtxt a_dstep a_dtxt]; eexists; (split; [reflexivity|]);
+    repeat (first [rewrite babs_char | rewrite babs_non | rewrite babs_space]); rewrite ?slash_cls, ?K; unfold a_char; cbn [is_ws]; reflexivity.
 Qed.
 
-Lemma cproc_in_dir fl cs : forall d b k m, category b = CPPDIR -> cguards (SDir k d, m) cs = true ->
-  exists b', cprocess fl (dstack d, b) cs = Ok (dstack (dfold d cs), b') /\ category b' = CPPDIR.
+(* mark of the scanner vs class of the buffer, on # lines *)
+Definition d_esc (d : dsub) : bool := match d with DEscT | DEscD | DEscS => true | _ => false end.
+Definition mbd (d : dsub) (m : mark) (b : bcls) : bool :=
+  match m, b with
+  | mU, (bE | bT) => negb (d_esc d)          (* the backslash before an escaped character has marked the line *)
+  | mB, (bN | bO) => negb (d_esc d)
+  | mM, (bO | bH0 | bH1) => true
+  | _, _ => false
+  end.
+Definition isH (b : bcls) : bool := match b with bH0 | bH1 => true | _ => false end.
+
+Definition allD' : list dsub := [DTxt; DSl; DLc; DBlk; DBlkSt; DDq; DSq; DEscT; DEscD; DEscS].
+Definition dstep_ok (d : dsub) (m : mark) (b : bcls) (k : cls) : bool :=
+  implb (mbd d m b && cguard (SDir K0 d, m) k)
+        (mbd (dstep d k) (dmark d k m) (a_dstep d k b) && implb (isH b) (isH (a_dstep d k b))).
+Lemma dstep_table :
+  forallb (fun d => forallb (fun m => forallb (fun b => forallb (dstep_ok d m b) allC) allB) allM) allD' = true.
+Proof. vm_compute. reflexivity. Qed.
+
+Lemma in_allD' d : In d allD'. Proof. destruct d; cbn; repeat (first [left; reflexivity | right]). Qed.
+Lemma cguard_dir_k k d m c : cguard (SDir k d, m) c = cguard (SDir K0 d, m) c.
+Proof. destruct c, d; reflexivity. Qed.
+
+Lemma dstep_sim d m b k0 c : mbd d m b = true -> cguard (SDir k0 d, m) c = true ->
+  mbd (dstep d c) (dmark d c m) (a_dstep d c b) = true /\ (isH b = true -> isH (a_dstep d c b) = true).
 Proof.
-  induction cs as [|c cs IH]; intros d b k m HC HG; [exists b; split; [reflexivity|exact HC]|].
-  cbn [cguards] in HG. apply andb_true_iff in HG. destruct HG as [G1 G2]. cbn [sstep] in G2.
-  cbn [cprocess]. destruct (cstep_dir fl d c b k m HC G1) as [b1 [E1 E2]]. rewrite E1.
-  exact (IH _ b1 k m E2 G2).
+  intros H1 H2. rewrite cguard_dir_k in H2.
+  pose proof dstep_table as T. rewrite forallb_forall in T. specialize (T d (in_allD' d)).
+  rewrite forallb_forall in T. specialize (T m (in_allM m)).
+  rewrite forallb_forall in T. specialize (T b (in_allB b)).
+  rewrite forallb_forall in T. specialize (T c (in_allC c)).
+  unfold dstep_ok in T. rewrite H1, H2 in T. cbn [andb implb] in T.
+  apply andb_true_iff in T. destruct T as [T1 T2]. split; [exact T1|].
+  intros HH. rewrite HH in T2. exact T2.
 Qed.
 
-Lemma cat_hash_blank c b : cls_of c = kHash -> is_blank b = true -> category (app_non c b) = CPPDIR.
+Lemma cproc_in_dir fl cs : forall d b m k, mbd d m (babs b) = true -> cguards (SDir k d, m) cs = true ->
+  exists d' m' b', sfold (SDir k d, m) cs = (SDir k d', m') /\
+    cprocess fl (dstack d, b) cs = Ok (dstack d', b') /\ mbd d' m' (babs b') = true /\
+    (isH (babs b) = true -> isH (babs b') = true).
 Proof.
-  intros K. rewrite is_blank_abs, babs_cat, babs_non, K. destruct (babs b); cbn; congruence.
+  induction cs as [|c cs IH]; intros d b m k HM HG.
+  - exists d, m, b. repeat split; auto.
+  - cbn [cguards] in HG. apply andb_true_iff in HG. destruct HG as [G1 G2]. cbn [sstep] in G2.
+    destruct (cstep_dir fl d c b k m G1) as [b1 [E1 E2]].
+    destruct (dstep_sim d m (babs b) k (cls_of c) HM G1) as [S1 S2]. rewrite <- E2 in S1, S2.
+    destruct (IH _ b1 _ k S1 G2) as [d' [m' [b' [F1 [F2 [F3 F4]]]]]].
+    exists d', m', b'. rewrite sfold_cons. cbn [sstep cprocess]. rewrite E1.
+    repeat split; auto.
+Qed.
+
+Lemma cat_hash_blank c b : cls_of c = kHash -> is_blank b = true -> isH (babs (app_non c b)) = true.
+Proof.
+  intros K. rewrite is_blank_abs, babs_non, K. destruct (babs b); cbn; congruence.
 Qed.
 
 (* only the two classes reachable from the empty buffer by white space *)
@@ -222,9 +288,13 @@ Proof. unfold fresh. rewrite is_blank_abs. destruct (babs b); cbn; congruence. Q
 Lemma fresh_ws c b : is_ws (cls_of c) = true -> fresh b = true -> fresh (app_char c b) = true.
 Proof. unfold fresh. rewrite babs_char. unfold a_char. intros ->. destruct (babs b); cbn; congruence. Qed.
 
+Lemma isH_mM d b : isH b = true -> mbd d mM b = true.
+Proof. destruct b; cbn; congruence. Qed.
+
+(* a line whose first non-blank character is #, from the top level *)
 Lemma cproc_dir fl cs : forall b k, fresh b = true -> fnb cs = Some kHash -> cguards (SBol k, mU) cs = true ->
-  exists d b', cprocess fl ([CTop], b) cs = Ok (dstack d, b') /\ category b' = CPPDIR /\
-               sfold (SBol k, mU) cs = (SDir k d, mM).
+  exists d' m' b', sfold (SBol k, mU) cs = (SDir k d', m') /\
+    cprocess fl ([CTop], b) cs = Ok (dstack d', b') /\ mbd d' m' (babs b') = true /\ isH (babs b') = true.
 Proof.
   induction cs as [|c cs IH]; intros b k HF HH HG; [discriminate|].
   cbn [cguards] in HG. apply andb_true_iff in HG. destruct HG as [G1 G2].
@@ -238,9 +308,9 @@ Proof.
     assert (E : cstep fl ([CTop], b) c = Ok ([CCpp; CTop], app_non c b)).
     { unfold cstep, cstep1. rewrite HH, (fresh_blank b HF). reflexivity. }
     rewrite E. rewrite HH in G2 |- *. cbn [sstep] in G2 |- *.
-    destruct (cproc_in_dir fl cs DTxt (app_non c b) k mM) as [b' [E1 E2]];
-      [apply cat_hash_blank; [exact HH|apply fresh_blank; exact HF]|exact G2|].
-    exists (dfold DTxt cs), b'. split; [exact E1|]. split; [exact E2|apply sfold_dir].
+    pose proof (cat_hash_blank c b HH (fresh_blank b HF)) as HB.
+    destruct (cproc_in_dir fl cs DTxt (app_non c b) mM k (isH_mM _ _ HB) G2) as [d' [m' [b' [F1 [F2 [F3 F4]]]]]].
+    exists d', m', b'. repeat split; auto.
 Qed.
 
 (* class of the collapsed line *)
@@ -264,7 +334,7 @@ Proof.
         destruct (babs b); try discriminate; destruct (cls_of c); try discriminate; reflexivity.
 Qed.
 
-(* ---------- c_line on a clean state ---------- *)
+(* ---------- c_line ---------- *)
 Definition clean (out : list cll) : cloop := {| cl_stk := [CTop]; cl_cur := osl0; cl_lines := []; cl_out := out |}.
 
 Lemma split_last_in cs : forall i z, split_last cs = Some (i, z) -> In z cs.
@@ -276,13 +346,9 @@ Proof.
     injection H as _ H. subst. right. exact (IH _ _ eq_refl).
 Qed.
 
-Lemma body_nobs cs : nobs cs = true ->
-  match split_last cs with
-  | Some (i, z) => if is_bs z then (i, true) else (cs, false)
-  | None => (cs, false)
-  end = (cs, false).
+Lemma body_nobs cs : nobs cs = true -> split_cont cs = (cs, false).
 Proof.
-  intros HN. destruct (split_last cs) as [[i z]|] eqn:E; [|reflexivity].
+  intros HN. unfold split_cont. destruct (split_last cs) as [[i z]|] eqn:E; [|reflexivity].
   pose proof (split_last_in cs i z E) as HI. unfold nobs in HN. rewrite forallb_forall in HN.
   specialize (HN z HI). apply negb_true_iff in HN. rewrite HN. reflexivity.
 Qed.
@@ -292,43 +358,88 @@ Proof. unfold join. destruct (parts b) as [|x r]; [reflexivity|]. cbn. rewrite a
 Lemma join0_cat b : category (join osl0 b) = category b.
 Proof. unfold category. rewrite join0_parts. reflexivity. Qed.
 
+(* c_line with the splitting of the trailing backslash made explicit *)
+Lemma c_line_unfold fl n s cs nl :
+  c_line fl n s (cs, nl) =
+  (let body := fst (split_cont cs) in let continued := snd (split_cont cs) in
+   if continued && negb nl then rt_err else
+   match cprocess fl (cl_stk s, osl0) body with
+   | Err e => Err e
+   | Ok (st1, b1) =>
+     match (if negb continued && negb (top_is_block st1) then cnewline (st1, b1) else Ok (st1, b1)) with
+     | Err e => Err e
+     | Ok (st2, b2) =>
+       let lines := if is_blank b2 then cl_lines s else cl_lines s ++ [n] in
+       let cur := join (cl_cur s) b2 in
+       if negb continued && negb (top_is_block st2)
+       then Ok {| cl_stk := st2; cl_cur := osl0; cl_lines := []; cl_out := cflush cur lines (cl_out s) |}
+       else Ok {| cl_stk := st2; cl_cur := cur; cl_lines := lines; cl_out := cl_out s |}
+     end
+   end).
+Proof.
+  unfold c_line, split_cont. destruct (split_last cs) as [[i z]|]; [destruct (is_bs z)|]; reflexivity.
+Qed.
+
+(* a line of Fortran text (not a directive) from a clean state *)
 Definition cout_ok (n : nat) (cs : list ascii) (l : list cll) : Prop :=
   match fnb cs with
   | None => l = []
-  | Some kh => if is_hashk kh then exists txt, l = [{| c_lines := [n]; c_cat := CPPDIR; c_text := txt |}]
-               else l = [{| c_lines := [n]; c_cat := SRC; c_text := collapse false cs |}]
+  | Some _ => l = [{| c_lines := [n]; c_cat := SRC; c_text := collapse false cs |}]
   end.
 
-Lemma dir_newline d b k m : eguard (SDir k d, m) = true -> category b = CPPDIR ->
-  top_is_block (dstack d) = false /\ exists b', cnewline (dstack d, b) = Ok ([CTop], b') /\ category b' = CPPDIR.
-Proof.
-  intros HE HC. destruct d; try discriminate; (split; [reflexivity|]); unfold cnewline, dstack;
-    eexists; (split; [reflexivity|solve_cat HC]).
-Qed.
-
-Lemma c_line_wf n out cs nl k : cguards (SBol k, mU) cs = true -> eguard (sfold (SBol k, mU) cs) = true ->
+Lemma c_line_plain n out cs nl : nobs cs = true -> fnb cs <> Some kHash ->
   exists l, c_line true n (clean out) (cs, nl) = Ok (clean (out ++ l)) /\ cout_ok n cs l.
 Proof.
-  intros HG HE. pose proof (cguards_nobs _ _ HG) as HN.
-  unfold c_line. rewrite (body_nobs cs HN). cbn [andb negb clean cl_stk cl_cur cl_lines cl_out].
-  unfold cout_ok. destruct (fnb cs) as [kh|] eqn:F; [destruct (is_hashk kh) eqn:H|].
-  - (* directive *)
-    assert (kh = kHash) by (destruct kh; try discriminate; reflexivity). subst kh.
-    destruct (cproc_dir true cs osl0 k eq_refl F HG) as [d [b' [E1 [E3 ES]]]].
-    rewrite E1. rewrite ES in HE. destruct (dir_newline d b' k mM HE E3) as [T1 [b2 [T2 T3]]]. rewrite T1. cbn [negb]. rewrite T2.
-    cbn [top_is_block negb]. unfold cflush. rewrite join0_cat, T3.
-    unfold is_blank. rewrite T3. cbn [app].
-    eexists. split; [reflexivity|]. eexists. reflexivity.
-  - (* source *)
-    rewrite (cproc_plain cs osl0 HN) by (intros _; rewrite F; intros E; injection E as E; subst; discriminate).
-    cbn [top_is_block negb cnewline]. unfold cflush. rewrite join0_cat.
-    rewrite (cat_fold_char cs osl0 eq_refl), F, H. unfold is_blank.
-    rewrite (cat_fold_char cs osl0 eq_refl), F, H. cbn [app].
-    rewrite join0_parts, fold_char_parts. cbn [parts trailing osl0 app].
+  intros HN HF. rewrite c_line_unfold, (body_nobs cs HN). cbn [fst snd andb negb clean cl_stk cl_cur cl_lines cl_out].
+  rewrite (cproc_plain cs osl0 HN (fun _ => HF)).
+  cbn [top_is_block negb andb cnewline]. unfold cflush. rewrite join0_cat.
+  rewrite (cat_fold_char cs osl0 eq_refl). unfold is_blank. rewrite (cat_fold_char cs osl0 eq_refl).
+  unfold cout_ok. destruct (fnb cs) as [kh|] eqn:FK.
+  - assert (HK : is_hashk kh = false) by (destruct kh; try reflexivity; exfalso; apply HF; reflexivity).
+    rewrite HK. cbn [app]. rewrite join0_parts, fold_char_parts. cbn [parts trailing osl0 app].
     eexists. split; reflexivity.
-  - (* blank *)
-    rewrite (cproc_plain cs osl0 HN) by (intros _; rewrite F; discriminate).
-    cbn [top_is_block negb cnewline]. unfold cflush. rewrite join0_cat.
-    rewrite (cat_fold_char cs osl0 eq_refl), F.
-    exists []. rewrite app_nil_r. split; reflexivity.
+  - exists []. rewrite app_nil_r. split; reflexivity.
+Qed.
+
+(* ---------- a physical line in directive mode ---------- *)
+Definition a_newline (d : dsub) (b : bcls) : bcls :=
+  match d with DLc => a_space b | DSl => a_non kSl b | _ => b end.
+Definition d_open (d : dsub) : bool := match d with DBlk | DBlkSt => true | _ => false end.
+Lemma dir_newline d b : d_open d = false -> d_esc d = false ->
+  top_is_block (dstack d) = false /\ exists b', cnewline (dstack d, b) = Ok ([CTop], b') /\ babs b' = a_newline d (babs b).
+Proof.
+  intros H1 H2. destruct d; try discriminate; (split; [reflexivity|]); unfold cnewline, dstack, a_newline;
+    eexists; (split; [reflexivity|]); rewrite ?babs_space, ?babs_non, ?slash_cls; reflexivity.
+Qed.
+
+(* the end of a directive-mode line: relation of the final mark and buffer class *)
+Definition dend_ok (d : dsub) (m : mark) (b : bcls) (cont : bool) : bool :=
+  implb (mbd d m b && eguard (SDir K0 d, m) && negb (cont && match d with DSl => true | _ => false end))
+        (let b2 := if cont then b else a_newline d b in
+         Bool.eqb (cat_eqb (a_cat b2) BLANK)
+                  (negb (is_mM m || (negb cont && match d with DSl => true | _ => false end)))
+         && implb (isH b) (isH b2)).
+Lemma dend_table :
+  forallb (fun d => forallb (fun m => forallb (fun b => forallb (dend_ok d m b) [true; false]) allB) allM) allD' = true.
+Proof. vm_compute. reflexivity. Qed.
+
+Lemma dend_sim d m b cont k : mbd d m b = true -> eguard (SDir k d, m) = true ->
+  (cont = true -> d <> DSl) ->
+  let b2 := if cont then b else a_newline d b in
+  cat_eqb (a_cat b2) BLANK = negb (is_mM m || (negb cont && match d with DSl => true | _ => false end)) /\
+  (isH b = true -> isH b2 = true).
+Proof.
+  intros H1 H2 H3.
+  pose proof dend_table as T. rewrite forallb_forall in T. specialize (T d (in_allD' d)).
+  rewrite forallb_forall in T. specialize (T m (in_allM m)).
+  rewrite forallb_forall in T. specialize (T b (in_allB b)).
+  rewrite forallb_forall in T. specialize (T cont). 
+  assert (HI : In cont [true; false]) by (destruct cont; cbn; tauto). specialize (T HI).
+  unfold dend_ok in T. rewrite H1 in T.
+  assert (E2 : eguard (SDir K0 d, m) = true) by (destruct d, m; cbn in *; congruence).
+  rewrite E2 in T.
+  assert (E3 : negb (cont && match d with DSl => true | _ => false end) = true).
+  { destruct cont; [|reflexivity]. destruct d; try reflexivity. exfalso. apply (H3 eq_refl). reflexivity. }
+  rewrite E3 in T. cbn [andb implb] in T. apply andb_true_iff in T. destruct T as [T1 T2].
+  apply Bool.eqb_prop in T1. split; [exact T1|]. intros HH. rewrite HH in T2. exact T2.
 Qed.
